@@ -16,3 +16,28 @@ M("c06-round", "C06", "py_common.py", "    NL = floor(nl)\n    return NL", "    
 M("c06-pyx-neg", "C06", "c_common.pyx", "    elif lat > 87 or lat < -87:", "    elif lat > 87 or lat < -88:")
 M("c06-pyx-fabs", "C06", "c_common.pyx", "cdef double b = cos(pi / 180 * fabs(lat)) ** 2", "cdef double b = cos(pi / 180 * fabs(lat) * 1.0000001) ** 2")
 M("c06-pyx-tol-equiv", "C06", "c_common.pyx", "1e-08 + 1e-05 * 87", "1e-08 + 1e-04 * 87", equivalent=True)
+
+# ---- C03
+M("c03-mod60", "C03", "decoder/bds/bds05.py", "lat_odd = float(air_d_lat_odd * (j % 59 + cprlat_odd))", "lat_odd = float(air_d_lat_odd * (j % 60 + cprlat_odd))")
+M("c03-gt270", "C03", "decoder/bds/bds05.py", "    if lat_even >= 270:", "    if lat_even > 270:")
+M("c03-ni", "C03", "decoder/bds/bds05.py", "        ni = max(common.cprNL(lat) - 1, 1)\n        m = common.floor(cprlon_even * (nl - 1) - cprlon_odd * nl + 0.5)\n        lon = (360 / ni) * (m % ni + cprlon_odd)", "        ni = max(common.cprNL(lat) - 1, 2)\n        m = common.floor(cprlon_even * (nl - 1) - cprlon_odd * nl + 0.5)\n        lon = (360 / ni) * (m % ni + cprlon_odd)")
+M("c03-lon180-equiv", "C03", "decoder/bds/bds05.py", "    if lon > 180:\n        lon = lon - 360\n\n    return lat, lon\n\n\ndef airborne_position_with_ref", "    if lon >= 180:\n        lon = lon - 360\n\n    return lat, lon\n\n\ndef airborne_position_with_ref", equivalent=True)
+M("c03-noswap", "C03", "decoder/bds/bds05.py", "        mb0, mb1 = mb1, mb0\n        t0, t1 = t1, t0", "        mb0, mb1 = mb1, mb0")
+M("c03-nogate", "C03", "decoder/bds/bds05.py", "    if common.cprNL(lat_even) != common.cprNL(lat_odd):\n        return None\n\n    # compute ni, longitude index m, and longitude\n    # (people pass int+int or datetime+datetime)\n    if t0 > t1:  # type: ignore\n        lat = lat_even\n        nl = common.cprNL(lat)", "    if False:\n        return None\n\n    # compute ni, longitude index m, and longitude\n    # (people pass int+int or datetime+datetime)\n    if t0 > t1:  # type: ignore\n        lat = lat_even\n        nl = common.cprNL(lat)")
+M("c03-route", "C03", "decoder/adsb.py", "    elif 20 <= tc0 <= 22 and 20 <= tc1 <= 22:", "    elif 20 <= tc0 <= 21 and 20 <= tc1 <= 22:")
+
+# ---- C04
+M("c04-half", "C04", "decoder/bds/bds05.py", "    j = common.floor(0.5 + lat_ref / d_lat - cprlat)", "    j = common.floor(0.4 + lat_ref / d_lat - cprlat)")
+M("c04-dlat", "C04", "decoder/bds/bds06.py", "    d_lat = 90 / 59 if i else 90 / 60", "    d_lat = 90 / 60 if i else 90 / 59")
+M("c04-ni2", "C04", "decoder/bds/bds05.py", "    if ni > 0:\n        d_lon = 360 / ni", "    if ni > 2:\n        d_lon = 360 / ni")
+M("c04-surf-fallback", "C04", "decoder/bds/bds06.py", "    else:\n        d_lon = 90\n", "    else:\n        d_lon = 360\n")
+M("c04-route", "C04", "decoder/adsb.py", "    if 5 <= tc <= 8:\n        return surface_position_with_ref(msg, lat_ref, lon_ref)", "    if 5 <= tc <= 7:\n        return surface_position_with_ref(msg, lat_ref, lon_ref)")
+M("c04-mfloor", "C04", "decoder/bds/bds06.py", "    m = common.floor(0.5 + lon_ref / d_lon - cprlon)", "    m = int(0.5 + lon_ref / d_lon - cprlon)")
+
+# ---- C05
+M("c05-no270", "C05", "decoder/bds/bds06.py", "    lons = [lon, lon + 90, lon + 180, lon + 270]", "    lons = [lon, lon + 90, lon + 180]")
+M("c05-360ni", "C05", "decoder/bds/bds06.py", "        lon = (90 / ni) * (m % ni + cprlon_even)", "        lon = (360 / ni) * (m % ni + cprlon_even)")
+M("c05-D4-regress", "C05", "decoder/bds/bds06.py", "    if abs(lat_ref - lat_odd_n) <= abs(lat_ref - lat_odd_s):", "    if lat_ref > 0:")
+M("c05-D5-regress", "C05", "decoder/bds/bds06.py", "    dls = [abs((lon_ref - lon + 180) % 360 - 180) for lon in lons]", "    dls = [abs(lon_ref - lon) for lon in lons]")
+M("c05-noref", "C05", "decoder/adsb.py", "        if lat_ref is None or lon_ref is None:", "        if lat_ref is None and lon_ref is None:")
+M("c05-timeorder", "C05", "decoder/bds/bds06.py", "    if t0 > t1:  # type: ignore\n        lat = lat_even\n        nl = common.cprNL(lat_even)", "    if t0 >= t1:  # type: ignore\n        lat = lat_even\n        nl = common.cprNL(lat_even)", equivalent=True)
